@@ -1,4 +1,4 @@
-PROP = {"engines": [("array", "growth", 2500), ("deque", "growth", 2500), ("pqueue", "growth", 1000), ("hashtable", "growth", 2000)],
+PROP = {"engines": [("array", "growth", 2500), ("sized", "growth", 1500), ("deque", "growth", 2500), ("pqueue", "growth", 1000), ("hashtable", "growth", 2000)],
         "level_text": "Coq theorems: size <= capacity (array, pqueue, deque, hash table invariants), capacity a power of two (deque, hash table), trim = max 1 size / next power of two "
                       "with contents preserved, load bound size <= capacity*load after every add under 1 <= capacity*load (refuted otherwise: D38), per-step growth factor and the "
                       "iterated geometric lower bound (so n appends cause O(log n) reallocations). The number of allocation requests is part of every observation line, so the "
